@@ -826,6 +826,12 @@ func corrJobs(cf *hxlib.CommonFlags, only string) []job {
 			if b.Heavy && !b.Modelled && n > 33 {
 				continue
 			}
+			if b.Heavy && (strings.Contains(b.Name, "div") || strings.Contains(b.Name, "mod")) && n > 33 {
+				// dividers: the Goldschmidt circuit has millions of gates above
+				// this width (no T4 line above 200k gates anyway); the oracle
+				// still evaluates them up to 64 / 128 bits
+				continue
+			}
 			if b.Heavy && !thorough && n > 17 {
 				continue
 			}
